@@ -1,10 +1,38 @@
 (** C06 — Nucleus reconciliation never contradicts its inputs or the periodic table.
-    Property theorems only; each is closed by [exact] of a lemma from Proofs/Nucleus.v, Proofs/NucleusKeys.v
-    or Proofs/NucleusLabel.v.
+    Property theorems only; each is closed by [exact] of a lemma from Proofs/Nucleus.v, Proofs/NucleusKeys.v,
+    Proofs/NucleusLabel.v, Proofs/NucleusLabelExact.v or Proofs/NucleusClass.v.
     Model: Model/Nucleus.v ([reconcile] = reconcile_nucleus, [parse_label] = parse_nucleus_label) over the
-    shipped table Gen/PTable.v (regenerated from /repo on every run); masses are exact rationals. *)
+    shipped table Gen/PTable.v (regenerated from /repo on every run); masses are exact rationals.
+
+    CLAUSE MAP (statement of C06 in properties.jsonl, clause by clause)
+    1. "a successful reconciliation returns one element whose symbol and atomic number match the periodic table and
+       every supplied clue"                      -> C06_sound (all clue subsets, all label texts, all settings).
+    2. "a mass number that is either that of a known nuclide whose tabulated mass lies within the tolerance of the
+       returned mass or -1"                       -> C06_sound (field s_nuclide) with C06_nuclide_key_is_table_row.
+    3. "a mass inside the element's physical range unless non-physical masses were explicitly allowed"
+                                                  -> C06_sound (s_range) with C06_mass_range_meaning.
+    4. "the ghost flag and lower-cased user tag exactly as given" -> C06_sound (s_real, s_user, s_label; defaults when
+       nothing was said).
+    5. "with no isotope information the most abundant isotope is used" -> C06_default_isotope.
+    6. "contradictory clues raise a validation error rather than being resolved in favour of one of them"
+                                                  -> C06_contradiction_rejected (nine contradiction forms: never Ok),
+       error CLASS: C06_contradiction_is_validation_error (ValidationError whenever every name in the clues is in the
+       table) and C06_not_an_element_only_for_unknown_names (NotAnElementError — documented, pinned by the suite for
+       A=80, Z=27 — arises only when a clue names an element or nuclide that is not tabulated), C06_fails_closed.
+    7. "the result does not depend on earlier calls" -> C06_history_independent: a model of functools.lru_cache
+       (maxsize 512, exceptions not cached, hits refresh, LRU eviction, cache_clear) around [reconcile]; every answer in
+       every history of calls and clears equals the uncached answer.  The hypothesis that makes this true — equal keys
+       denote the same call — is exactly what a coarser key breaks; on the implementation: history stream.
+    8. "and is reproduced when the output is fed back" -> C06_feedback_fixed_point (0 <= mtol <= 1/4; beyond: known
+       finding C06-wide-mtol-feedback).
+    9. label grammar ("a label such as '@13C_tag@13.003'") -> C06_parse_label_spec (parse_label s = Ok f <-> Label s f:
+       exactly the grammar's strings, exactly the grammar's fields), C06_label_unambiguous, C06_parse_label_refuses
+       (everything else: ValidationError); C06_parse_label_sound / _complete kept as the two halves.
+    Quantifier "histories": theorem 7 for the model, history stream for the implementation.  Gap: the tie between
+    the hand-written recogniser and regex.NUCLEUS is differential (label stream), not a translation. *)
 From Coq Require Import ZArith List Bool String QArith Qabs.
 Require Import QV.Common.Outcome QV.Gen.PTable QV.Model.Nucleus QV.Proofs.NucleusKeys QV.Proofs.Nucleus QV.Proofs.NucleusLabel.
+Require Import QV.Proofs.NucleusLabelExact QV.Proofs.NucleusClass.
 Import ListNotations.
 Open Scope Z_scope.
 
@@ -67,6 +95,37 @@ Proof. exact parse_label_sound. Qed.
 Theorem C06_parse_label_complete : forall s f, Label (list_ascii_of_string s) f -> exists f', parse_label s = Ok f'.
 Proof. exact parse_label_complete. Qed.
 
+(** The recogniser accepts exactly the strings of the label grammar and returns exactly the grammar's fields. *)
+Theorem C06_parse_label_spec : forall s f, parse_label s = Ok f <-> Label (list_ascii_of_string s) f.
+Proof. exact parse_label_spec. Qed.
+
+(** The grammar is unambiguous: a label has at most one reading. *)
+Theorem C06_label_unambiguous :
+  forall s f f', Label (list_ascii_of_string s) f -> Label (list_ascii_of_string s) f' -> f = f'.
+Proof. exact label_unambiguous. Qed.
+
+(** Every other string is refused with ValidationError. *)
+Theorem C06_parse_label_refuses : forall s, (forall f, ~ Label (list_ascii_of_string s) f) -> parse_label s = Err Validation.
+Proof. exact parse_label_refuses. Qed.
+
+(** Error class.  NotAnElementError is raised only when some clue names something that is not in the table: if every
+    Z / E clue (arguments and label) is an element and every mass-number clue is a tabulated nuclide of the elements
+    named ([names_known]), the only error is ValidationError ... *)
+Theorem C06_not_an_element_only_for_unknown_names : forall i, names_known i -> reconcile i <> Err NotAnElement.
+Proof. exact not_an_element_only_for_unknown_names. Qed.
+
+(** ... so contradictory clues whose names are all tabulated raise ValidationError. *)
+Theorem C06_contradiction_is_validation_error : forall i, Contradiction i -> names_known i -> reconcile i = Err Validation.
+Proof. exact contradiction_is_validation_error. Qed.
+
+(** The result does not depend on earlier calls: behind functools.lru_cache (maxsize 512; exceptions are not cached;
+    a hit refreshes its entry; least recently used entries are evicted), for every history of calls and cache_clear()s
+    starting from an empty cache, every answer is the answer of the uncached function. *)
+Theorem C06_history_independent :
+  forall h : list (event nuc_in),
+    fst (run nuc_in nuc_out key_eqb reconcile lru_maxsize [] h) = pure nuc_in nuc_out reconcile h.
+Proof. exact reconcile_history_independent. Qed.
+
 (** Non-vacuity. *)
 Definition ex_in : nuc_in :=
   {| nA := Some 59; nZ := Some 27; nE := Some "cO"%string; nmass := Some (58933195048 # 1000000000); nreal := None;
@@ -92,6 +151,18 @@ Qed.
 Example C06_ex_contradiction : Contradiction {| nA := None; nZ := Some 1; nE := Some "he"%string; nmass := None; nreal := None;
      nlabel := None; speclabel := true; nonphysical := false; mtol := 1 # 1000 |}.
 Proof. eapply K_Z_E; [reflexivity | reflexivity | vm_compute; discriminate]. Qed.
+Definition ex_contra : nuc_in := {| nA := None; nZ := Some 1; nE := Some "he"%string; nmass := None; nreal := None;
+     nlabel := None; speclabel := true; nonphysical := false; mtol := 1 # 1000 |}.
+Example C06_ex_names_known : names_known ex_contra /\ reconcile ex_contra = Err Validation.
+Proof.
+  split; [|vm_compute; reflexivity]. split.
+  - intros c [<-|[<-|[]]]; simpl; [exists "H"%string; vm_compute; reflexivity | exists 2, "He"%string; split; vm_compute; reflexivity].
+  - intros lbl Hp. vm_compute in Hp. injection Hp as <-. split; [intros c []|]. intros c z e a _ _ _ Ha. simpl in Ha. destruct Ha.
+Qed.
+Example C06_ex_history :
+  fst (run nuc_in nuc_out key_eqb reconcile lru_maxsize [] [Call nuc_in ex_in; Call nuc_in ex_contra; Clear nuc_in; Call nuc_in ex_in; Call nuc_in ex_in])
+  = [Ok ex_out; Err Validation; Ok ex_out; Ok ex_out].
+Proof. vm_compute. reflexivity. Qed.
 Example C06_ex_label : parse_label "Gh(40Ca_mine@1.07)" =
   Ok {| lA := Some 40; lZ := None; lE := Some "Ca"%string; lmass := Some (107 # 100); lreal := false; luser := Some "_mine"%string |}.
 Proof. vm_compute. reflexivity. Qed.
@@ -105,3 +176,9 @@ Print Assumptions C06_contradiction_rejected.
 Print Assumptions C06_feedback_fixed_point.
 Print Assumptions C06_parse_label_sound.
 Print Assumptions C06_parse_label_complete.
+Print Assumptions C06_parse_label_spec.
+Print Assumptions C06_label_unambiguous.
+Print Assumptions C06_parse_label_refuses.
+Print Assumptions C06_not_an_element_only_for_unknown_names.
+Print Assumptions C06_contradiction_is_validation_error.
+Print Assumptions C06_history_independent.
